@@ -57,6 +57,20 @@ def cut_open(rng, t: PT, p_cut: float = 0.25, root: bool = True) -> PT:
     return (i, s, [cut_open(rng, k, p_cut, False) for k in kids])
 
 
+def complete(rng, c: Canon, t: PT, ids: IdGen, depth: int = 4) -> PT:
+    """a closed completion of the open tree t: every open leaf is expanded by a random derivation; all nodes of t
+    (open leaves included) keep their identities, new nodes get fresh ones"""
+    i, s, kids = t
+    if kids is None:
+        sub = gen_tree(rng, c, s, rng.randint(1, depth), ids)
+        return (i, s, sub[2])
+    return (i, s, [complete(rng, c, k, ids, depth) for k in kids])
+
+
+def max_id(t: PT) -> int:
+    return max([t[0]] + [max_id(k) for k in (t[2] or [])])
+
+
 def size(t: PT) -> int:
     return 1 + sum(size(k) for k in (t[2] or []))
 
